@@ -1,8 +1,10 @@
+pub mod c01;
 pub mod c09;
+pub mod c10;
 pub mod c09b;
 
 use crate::runner::Check;
 
 pub fn all() -> Vec<Check> {
-    vec![c09::check()]
+    vec![c01::check(), c09::check(), c10::check()]
 }
